@@ -59,7 +59,19 @@ MANIFEST = dict(
           "regenerated from mapx/hashmap.go on every run (Ekit/Generated/HashMapFacts.lean). On every run the compiled model is an "
           "acceptor for traces of the real containers driven with key types from perfect to constant hash and an Equals coarser than "
           "identity: results, Len, Keys under the observed bucket order, Values, the chain dump per hash code, the fields of every "
-          "node handed to the pool, the linked list walked both ways; aliasing of MultiMap slices is probed."),
+          "node handed to the pool, the linked list walked both ways; aliasing of MultiMap slices is probed. "
+          "Review additions (Ekit/Props/C03Rev.lean): the abstract map is validated against a container-free reading of the history - "
+          "Get k after ANY history from the constructor returns the value of the last Put of a key Equals to k not followed by a Delete "
+          "of such a key, whatever was done to other keys of the same hash code (c03_spec_get_last_write, c03_get_after_history, "
+          "c03_linked_get_after_history, c03_multi_get_after_history, c03_builtin_get_after_history, c03_mapset_exist_after_history); in "
+          "every reachable state Len = len(Keys) = len(Values) for any iteration orders and every live key is listed exactly once, every "
+          "dead key never (c03_len_keys_values_reachable, c03_len_eq_len_keys, c03_keys_exactly_once, c03_keys_values_zip, "
+          "c03_linked_reachable); reads and failed Deletes change nothing, pool included (c03_reads_change_nothing, "
+          "c03_delete_missing_changes_nothing, c03_linked_failed_changes_nothing); no call of any history panics (c03_run_no_panic); two "
+          "runs of the same calls that differ in every pool choice and iteration order are indistinguishable "
+          "(c03_pool_choice_unobservable); every call sequence has a legal oracle history (c03_validrun_exists). The acceptor now also "
+          "checks the iteration-order oracle against its constraint (the order read off an observed Keys() must visit every bucket "
+          "exactly once), so a Keys() that skips whole buckets is rejected."),
     note=COMMON_NOTE + " Go map iteration order and sync.Pool.Get are oracles (any permutation of the buckets / any pooled or new node); "
          "the doubly linked ring of LinkedMap is modelled as the list of its entries with allocation ids for pointers; which of several "
          "Equals keys a map stores is fixed by the model (the first) but not demanded by the spec oracle; slice aliasing is probed "
